@@ -41,6 +41,7 @@ static long long nom(const void* p) {
 
 // ------------------------------------------------------------------ event log
 static std::mutex g_mu;
+static std::atomic<long long> g_rel_frees {0};        // page / upstream deallocations since the current release() began
 static std::vector<std::string> g_events;   // events of the current op (X cases)
 static bool g_bad_free = false, g_bad_upfree = false;             // page/upstream returned twice, unknown, or with wrong size/alignment
 static bool g_wrong_upstream = false;       // a block of the recording upstream reached operator delete
@@ -118,6 +119,7 @@ struct RecPages : public PageAllocator {
   }
   void deallocate(void** pages, size_t n) noexcept override {
     std::lock_guard<std::mutex> l(g_mu);
+    g_rel_frees.fetch_add(1);
     std::string s = "pf";
     for (size_t i = 0; i < n; ++i) {
       char* p = (char*)pages[i];
@@ -161,6 +163,7 @@ struct RecUp : public std::pmr::memory_resource {
   }
   void do_deallocate(void* ptr, size_t bytes, size_t align) override {
     std::lock_guard<std::mutex> l(g_mu);
+    g_rel_frees.fetch_add(1);
     char* p = (char*)ptr;
     if (!threadsafe) ev("uf1:" + num(nom(p)) + ":" + num((long long)bytes) + ":" + num((long long)align));
     auto it = live.find(p);
@@ -188,9 +191,15 @@ static RecUp g_up;
 // ------------------------------------------------------------------ destructors
 static std::vector<std::pair<long long, int>> g_dtor_calls;   // since last release
 static std::atomic<long long> g_dtor_count {0};
+static std::atomic<long long> g_dtor_after_free {0};  // destructor calls that saw memory already returned
+static std::atomic<long long> g_watch_corrupt {0};    // watcher destructors that found the peer's block scribbled
 static void fn1(void* p) { ev("dt" + num((long long)(uintptr_t)p) + ":1"); g_dtor_calls.push_back({(long long)(uintptr_t)p, 1}); }
 static void fn2(void* p) { ev("dt" + num((long long)(uintptr_t)p) + ":2"); g_dtor_calls.push_back({(long long)(uintptr_t)p, 2}); }
-static void fn_count(void* p) { ((std::atomic<int>*)p)->fetch_add(1); g_dtor_count.fetch_add(1); }
+static void fn_count(void* p) {
+  ((std::atomic<int>*)p)->fetch_add(1);
+  g_dtor_count.fetch_add(1);
+  if (g_rel_frees.load() != 0) g_dtor_after_free.fetch_add(1);
+}
 
 // ------------------------------------------------------------------ monitors
 struct Block { char* p; size_t bytes, align; int id; };
@@ -398,6 +407,17 @@ static uint64_t mix(uint64_t& s) {
   return z ^ (z >> 31);
 }
 
+// a destructor registered in one thread's sub-resource that looks at a block of another thread's sub-resource
+struct Watcher { const char* peer; size_t bytes; int peer_id; };
+static unsigned char pat(int id, size_t i);
+static void fn_watch(void* p) {
+  auto* w = (Watcher*)p;
+  g_dtor_count.fetch_add(1);
+  if (g_rel_frees.load() != 0) g_dtor_after_free.fetch_add(1);
+  for (size_t i = 0; i < w->bytes; ++i)
+    if ((unsigned char)w->peer[i] != pat(w->peer_id, i)) { g_watch_corrupt.fetch_add(1); break; }
+}
+
 template <typename R>
 static void run_shared(const std::string& id, const char* kind, std::istringstream& in) {
   size_t P, T, N;
@@ -453,7 +473,39 @@ static void run_shared(const std::string& id, const char* kind, std::istringstre
         if ((seed + started) % 3 == 0 && !th.empty()) { th.front().join(); th.erase(th.begin()); }
       }
       for (auto& t : th) t.join();
+      // watcher phase: W threads alive at the same time (distinct sub-resources); each allocates a small and an
+      // oversize payload, then registers - in ITS sub-resource - destructors that inspect the NEXT thread's payloads
+      // (a ring, so whatever the enumeration order some destructor looks at an earlier-enumerated sub-resource)
+      size_t W = std::max<size_t>(2, std::min<size_t>(T, 4));
+      std::vector<std::vector<Block>> wblk(W);
+      std::vector<Watcher> watchers(2 * W);
+      {
+        std::atomic<size_t> arrived {0}, registered_w {0};
+        auto wbody = [&](size_t t) {
+          for (size_t k = 0; k < 2; ++k) {
+            size_t bytes = k == 0 ? 64 + 8 * t : P + 8 + t;
+            char* p = (char*)res.allocate(bytes, 8);
+            Block b {p, bytes, 8, idgen.fetch_add(1)};
+            if (in_arena(p)) fill(b);
+            wblk[t].push_back(b);
+          }
+          arrived.fetch_add(1);
+          while (arrived.load() < W) std::this_thread::yield();
+          for (size_t k = 0; k < 2; ++k) {
+            const Block& peer = wblk[(t + 1) % W][k];
+            watchers[2 * t + k] = Watcher {peer.p, in_arena(peer.p) ? peer.bytes : 0, peer.id};
+            res.register_destructor(&watchers[2 * t + k], fn_watch);
+            registered.fetch_add(1);
+          }
+          registered_w.fetch_add(1);
+          while (registered_w.load() < W) std::this_thread::yield();   // all alive until every registration is done
+        };
+        std::vector<std::thread> wt;
+        for (size_t t = 0; t < W; ++t) wt.emplace_back(wbody, t);
+        for (auto& t : wt) t.join();
+      }
       std::vector<Block> all;
+      for (auto& v : wblk) for (auto& b : v) all.push_back(b);
       for (auto& v : per) for (auto& b : v) all.push_back(b);
       total_blocks += all.size();
       for (auto& b : all) {
@@ -467,7 +519,10 @@ static void run_shared(const std::string& id, const char* kind, std::istringstre
       std::sort(sorted.begin(), sorted.end(), [](const Block& a, const Block& b) { return a.p < b.p; });
       for (size_t i = 1; i < sorted.size(); ++i)
         if (sorted[i - 1].p + sorted[i - 1].bytes > sorted[i].p) { m.disjoint = false; detail("disjoint", "blocks given to concurrent threads overlap: " + num(nom(sorted[i - 1].p)) + "+" + num((long long)sorted[i - 1].bytes) + " and " + num(nom(sorted[i].p))); }
+      g_rel_frees.store(0); g_dtor_after_free.store(0); g_watch_corrupt.store(0);
       res.release();
+      if (g_dtor_after_free.load() != 0) { m.dtor = false; detail("dtor", "release of the shared resource returned pages / oversize blocks before all registered destructors had run: " + num(g_dtor_after_free.load()) + " destructor call(s) came after the first deallocation"); }
+      if (g_watch_corrupt.load() != 0) { m.stable = false; detail("stable", num(g_watch_corrupt.load()) + " destructor(s) registered in one thread's sub-resource found a live block of another thread's sub-resource already returned and scribbled during release"); }
       for (size_t i = 0; i < counters.size(); ++i) if (counters[i].load() > 1) { m.dtor = false; detail("dtor", "a destructor ran twice"); }
       if (g_dtor_count.load() != registered.load()) { m.dtor = false; detail("dtor", "release of the shared resource ran " + num(g_dtor_count.load()) + " destructors for " + num(registered.load()) + " registrations"); }
       if (!g_pages.live.empty()) { m.pages = false; detail("pages", num((long long)g_pages.live.size()) + " page(s) not returned by release of the shared resource"); }
